@@ -88,6 +88,44 @@ def run_e1(chk, d):
     return len(got)
 
 
+def run_e3(chk, d):
+    """deadline arithmetic of a finite timeout: interposed host clock x timeouts, single thread (mc/h_futex_e3.c)"""
+    exe = os.path.join(d, 'e3')
+    cmd = ['gcc', '-O1', '-g', '-w', '-DWASM_THREADS_PTHREADS', '-Dpthread_cond_timedwait=e3_timedwait', '-I', d, '-I', os.path.join(REPO, 'w2c2'), os.path.join(d, 'm.c'),
+           os.path.join(mclib.MC, 'h_futex_e3.c')] + futex_srcs() + ['-o', exe, '-lpthread']
+    r = run(cmd)
+    if r.returncode != 0:
+        raise mclib.MachineryError('cannot build E3 driver: ' + r.stderr.decode()[-2000:])
+    rr = run([exe], timeout=120)
+    out = rr.stdout.decode()
+    lines = [l.split() for l in out.splitlines() if l.startswith('E3 ')]
+    if rr.returncode != 0 or len(lines) != 5 * 6 * 11:
+        chk.violation('deadline|driver-died', {'kind': 'program', 'stdout': out[-600:], 'stderr': rr.stderr.decode()[-600:], 'how_to_replay': 'python3 checks/c17.py quick'},
+                      'E3 driver ended with status %d after %d of 330 cases: %s' % (rr.returncode, len(lines), (out[-200:] + rr.stderr.decode()[-200:])))
+        return len(lines)
+    NS = 10 ** 9      # restated, not read from w2c2_base.h
+    bad = {}
+    late_ok = 0
+    for _, sec, nsec, to, ret, calls, dsec, dnsec in lines:
+        sec, nsec, to, ret, calls, dsec, dnsec = int(sec), int(nsec), int(to), int(ret), int(calls), int(dsec), int(dnsec)
+        total = sec * NS + nsec + to
+        want = (total // NS, total % NS)
+        if ret != 2 or calls < 1:
+            bad.setdefault('deadline|wait-did-not-time-out', []).append('now=%d.%09d timeout=%d ns: returned %d after %d timed waits (the timed wait reported ETIMEDOUT)' % (sec, nsec, to, ret, calls))
+        elif (dsec, dnsec) != want:
+            cls = 'not-normalised' if not 0 <= dnsec < NS else ('too-early' if (dsec, dnsec) < want else 'too-late')
+            if cls == 'too-late' and (dsec * NS + dnsec) - total <= 10 ** 6:
+                late_ok += 1       # rounding the deadline up by at most 1 ms is not a violation of the statement
+                continue
+            bad.setdefault('deadline|%s' % cls, []).append('now=%d.%09d timeout=%d ns: absolute deadline given to pthread_cond_timedwait is %d.%09d, exact now+timeout is %d.%09d' % (
+                sec, nsec, to, dsec, dnsec, want[0], want[1]))
+    for key, msgs in sorted(bad.items()):
+        chk.violation(key, {'kind': 'program', 'cases': msgs[:20], 'how_to_replay': 'python3 checks/c17.py quick (E3: mc/h_futex_e3.c)'}, '%s (%d of 330 clock x timeout cases)' % (msgs[0], len(msgs)))
+    chk.cov['e3_deadline_cases'] = {'cases': len(lines), 'host_clock_answers': '5 seconds values x 6 nanosecond values (0, 1, 499999999, 500000000, 999999998, 999999999)',
+                                    'timeouts_ns': '1, 999, 5e8, 1e9-1, 1e9, 1e9+1, 1.5e9, 2e9-1, 2e9, 3.6e12, 2^53+1', 'wrong': sum(len(v) for v in bad.values()), 'late_by_at_most_1ms_tolerated': late_ok}
+    return len(lines)
+
+
 # ---------------------------------------------------------------- E2: sequential futex model replayed along the linearisation
 def W(addr, exp='old', timeout=INF, bits=32, off=0):
     return 'W:%d:%d:%d:%s:%d' % (bits, addr, off, exp, timeout)
@@ -308,6 +346,7 @@ def main(tier):
         root = scratch('c17')
         exes, d = build(('asan', 'tsan'), root)
         ne1 = run_e1(chk, d)
+        ne1 += run_e3(chk, d)
         jobs = []
         caselist = [(w, pb, db, 0) for w, pb, db in make_cases('quick')]
         if tier != 'quick':     # round 0 of the thorough tier is the complete quick tier; deeper rounds only start before the soft deadline
@@ -330,7 +369,8 @@ def main(tier):
                          'futex.c up to the preemption bound, with up to db environment deviations (a timeout that fires while other threads can still run, a spurious wake-up) and every '
                          'choice of the signalled waiter, is executed on the real code in an ASan build (and again, one preemption level lower and with <= 3 threads, in a TSan build); the log of critical-section entries is replayed on '
                          'a sequential futex model.  distinct_nontrivial = cases whose schedules give more than one distinct (return values, terminal thread states, futex map) combination. '
-                         'E1: 10 single-threaded probes of the translated functions with memarg offset 0/16' % (A, A2, B))
+                         'E1: 10 single-threaded probes of the translated functions with memarg offset 0/16. E3: 330 (host clock answer, finite timeout) cases: the absolute deadline handed to '
+                         'pthread_cond_timedwait must be exactly now + timeout, normalised' % (A, A2, B))
         chk.cov['evaluations'] += ne1
         # did the two colliding addresses really meet in one bucket?
         coll = 0
